@@ -43,6 +43,7 @@ def tasks(tier):
     ts = [("ff", st, w, init) for st in b["stages"] for w in b["widths"] for init in (0, 1)]
     # signed input into a wider unsigned output: the stages must keep the input's shape (sign extension at the output)
     ts += [("ff", st, 2, init, True) for st in b["stages"] for init in (0, -1)]
+    ts += [("ff", st, 2, 1, False, False, False) for st in b["stages"]]       # reset_less=False
     ts += [("asyncff", st, e) for st in b["stages"] for e in ("pos", "neg")]
     ts += [("resetsync", st) for st in b["stages"]]
     ts += [("resetsync", 2, "other"), ("asyncff", 2, "pos", "other")]
@@ -61,11 +62,11 @@ def _stage_signals(d, prefix="stage"):
     return st
 
 
-def check_ff(stages, width, init, signed_in=False, canary=False):
+def check_ff(stages, width, init, signed_in=False, canary=False, reset_less=True):
     from amaranth.hdl import Signal, Module, ClockDomain, signed
     from amaranth.lib.cdc import FFSynchronizer
     from spec.sem import norm
-    name = f"FFSynchronizer(stages={stages},w={width},init={init}{',signed-into-wider' if signed_in else ''})"
+    name = f"FFSynchronizer(stages={stages},w={width},init={init}{',signed-into-wider' if signed_in else ''}{'' if reset_less else ',reset_less=False'})"
     if signed_in:
         i, o = Signal(signed(width), name="i"), Signal(width + 2, name="o")
         out_of = lambda x: norm(x, width + 2, False)
@@ -74,7 +75,8 @@ def check_ff(stages, width, init, signed_in=False, canary=False):
         out_of = lambda x: x
     m = Module()
     m.domains.sync = cd = ClockDomain()
-    m.submodules.ff = FFSynchronizer(i, o, stages=stages, init=init)
+    m.submodules.ff = FFSynchronizer(i, o, stages=stages, init=init) if reset_less else \
+        FFSynchronizer(i, o, stages=stages, init=init, reset_less=False)
     d = Design(m)
     d.register(i, o)
     clk = cd.clk
@@ -90,8 +92,12 @@ def check_ff(stages, width, init, signed_in=False, canary=False):
     def body(path):
         d.fresh(path)
         d.set(clk, 0)
+        # the output domain's reset is at an ARBITRARY level throughout: by default the stages are reset-less (the reset of the
+        # output domain neither holds nor wipes them); with reset_less=False an edge with the reset high loads init
+        rv = path.var("rst", 0, 1)
+        in_reset = bool(rv != 0) and not reset_less
         if cd.rst is not None:
-            d.set(cd.rst, 0)
+            d.set(cd.rst, rv)
         v = d.val(i)
         d.apply([], path, name + "::pre")
         old = [d.val(f) for f in flops]
@@ -99,14 +105,14 @@ def check_ff(stages, width, init, signed_in=False, canary=False):
         for j in range(1, stages + 1):
             d.apply([(clk, 1)], path, f"{name}::edge{j}")
             for k, f in enumerate(flops):
-                want = v if k < j else old[k - j]
+                want = init if in_reset else (v if k < j else old[k - j])
                 path.prove(f"{name}::edge{j}::stage{k}", to_sint(d.val(f)) == to_sint(want))
-            want_o = v if j >= stages else old[stages - 1 - j]
+            want_o = init if in_reset else (v if j >= stages else old[stages - 1 - j])
             if canary and j == stages - 1:
                 want_o = v
             path.prove(f"{name}::edge{j}::output", to_sint(d.val(o)) == to_sint(out_of(want_o)))
             d.apply([(clk, 0)], path, f"{name}::fall{j}")
-            path.prove(f"{name}::fall{j}::no-change", And(*[to_sint(d.val(f)) == to_sint(v if k < j else old[k - j])
+            path.prove(f"{name}::fall{j}::no-change", And(*[to_sint(d.val(f)) == to_sint(init if in_reset else (v if k < j else old[k - j]))
                                                            for k, f in enumerate(flops)]))
     res = runner.from_exploration(name, Exploration(name, body).run())
     res["obligations"] = obs + res["obligations"]
